@@ -21,6 +21,12 @@ CHECKS.update({
  'C13': ('inductive step over the real StopWatch methods from an arbitrary invariant-satisfying pre-state with symbolic IEEE-double clock readings (z3 FloatingPoint), compared bit-for-bit with a reference transition relation',
          'One call of each operation from an arbitrary pre-state (covers sequences of any length if the invariant is right; the invariant is listed in the evidence). Clock readings finite, |t| <= 1e150. The clause "recorded split values are non-decreasing" additionally needs monotonicity of IEEE subtraction, which neither z3 nor cvc5 decides at binary64 (outside the claim).'),
 })
+CHECKS.update({
+ 'C04': ('symbolic execution of the real mask_password through a symbolic model of re (backtracking matcher over the tree the real re._parser produces for the patterns the repo source builds); secret characters, key letter case and digit suffix symbolic; z3 decides output == expected on every path',
+         'Secret of 1..2 (thorough 3..4) symbolic characters over the rendering\'s alphabet within 0x20-0xFF; key list and renderings from spec/sanitize.py; neutral context concrete. Known findings N1 and W1 are exempted at their sites only.'),
+ 'C08': ('symbolic execution of the real mask_dict_password over mapping shapes with a symbolic key string (identity-hashed) and symbolic string values; key-match predicate and value masking decided by z3',
+         'Shapes (depth <= 2, width 2) and value kinds are configurations; what is symbolic is the key text (reference key in any letter case, embedded, near miss, arbitrary) and string values.'),
+})
 NA = {
 }
 def main():
